@@ -429,7 +429,19 @@ func (n *cnNet) electionOutput(ctx context.Context, t mkvs.ImmutableKeyValueTree
 			return cl[i]["rt"].(string)+cl[i]["kind"].(string) < cl[j]["rt"].(string)+cl[j]["kind"].(string)
 		})
 	}
-	return map[string]any{"committees": cl, "validators": vl, "max_validators": int64(params.MaxValidators), "max_per_entity": int64(params.MaxValidatorsPerEntity),
+	// nodes that are frozen once the election is over: the applications told about the coming election (roothash: liveness of the
+	// ending epoch's committees) freeze nodes BEFORE the candidates are read, so none of them may have been elected
+	frozenAfter := []string{}
+	rs := registryState.NewImmutableState(t)
+	if nodes, nerr := rs.Nodes(ctx); nerr == nil {
+		for _, nd := range nodes {
+			if st, serr := rs.NodeStatus(ctx, nd.ID); serr == nil && st != nil && st.IsFrozen() {
+				frozenAfter = append(frozenAfter, n.keyName(nd.ID.String()))
+			}
+		}
+	}
+	sort.Strings(frozenAfter)
+	return map[string]any{"frozen_after": frozenAfter, "committees": cl, "validators": vl, "max_validators": int64(params.MaxValidators), "max_per_entity": int64(params.MaxValidatorsPerEntity),
 		"min_validators": int64(params.MinValidators)}, nil
 }
 
